@@ -60,8 +60,13 @@ RefOK(r, st) ==
 BtOK(r) == r.btok /\ r.bt = r.obs
 SerOK(r) == r.serok /\ r.ser = r.obs
 
+\* history independence: the same text with the earlier (successful) call at the same depth removed - a twin program
+\* with identical layout - reports the identical stack; r.twin = r.obs for records without a twin
+TwinOK(r) == r.twin = r.obs
+
 Verdict(r) ==
   IF ~GenOK(r) THEN "gen"
+  ELSE IF ~TwinOK(r) THEN "history"
   ELSE IF ~BtOK(r) THEN "backtrace"
   ELSE IF ~SerOK(r) THEN "serialized"
   ELSE IF ~r.hasast THEN "ok"
